@@ -104,6 +104,19 @@ def face_flag_constants():
     return thr, a, plus
 
 
+def is_self_division(st):
+    """`x /= abs(x)`  or the equivalent  `x = x / abs(x)`  (x any subscript expression)"""
+    if isinstance(st, ast.AugAssign) and isinstance(st.op, ast.Div):
+        tgt, val = st.target, st.value
+    elif isinstance(st, ast.Assign) and len(st.targets) == 1 and isinstance(st.value, ast.BinOp) and isinstance(st.value.op, ast.Div) \
+            and ast.unparse(st.value.left) == ast.unparse(st.targets[0]):
+        tgt, val = st.targets[0], st.value.right
+    else:
+        return False
+    return (isinstance(val, ast.Call) and getattr(val.func, "id", None) == "abs" and len(val.args) == 1
+            and ast.unparse(val.args[0]) == ast.unparse(tgt))
+
+
 def base_threshold():
     tree, _ = T.load(BASE)
     fn = T.find_def(tree, "FrameField.normalize")
@@ -113,9 +126,8 @@ def base_threshold():
     if len(ifs) != 1:
         raise T.TranslateError("`if abs(self.var[i]) > THR` not found exactly once in FrameField.normalize")
     body = ifs[0].body
-    if not (len(body) == 1 and isinstance(body[0], ast.AugAssign) and isinstance(body[0].op, ast.Div)
-            and isinstance(body[0].value, ast.Call) and getattr(body[0].value.func, "id", None) == "abs"):
-        raise T.TranslateError("body of the guard is not `self.var[i] /= abs(self.var[i])`")
+    if not (len(body) == 1 and is_self_division(body[0])):
+        raise T.TranslateError("body of the guard is not `self.var[i] /= abs(self.var[i])` (or `self.var[i] = self.var[i] / abs(self.var[i])`)")
     return _ratlit(ifs[0].test.comparators[0])
 
 
